@@ -28,6 +28,19 @@ LINTER = 'supp/linter.py'
 
 
 def run(repo, res):
+    # a binding must not be visible inside its own value: get_expr_end (the visibility anchor of assignments, walrus,
+    # imports, with-targets) must be anchored at the *last* node of the value, i.e. after every read inside it
+    from ..exprend import expr_end_semantics
+    sem = expr_end_semantics(repo)
+    for cls, verdict, detail in sem:
+        if verdict == 'unknown':
+            raise AnalysisError('get_expr_end is outside the interpretable subset: %s' % detail)
+        res.check('C03-R3', 'get_expr_end on %s' % cls, verdict == 'ok', 'supp/util.py', 0,
+                  'the visibility anchor of a binding must lie after every read inside its value expression (%s): otherwise '
+                  'the name sees itself in its own right-hand side - a definition that reaches the read on no path' % detail,
+                  sample='get_expr_end(%s) is anchored at the last visited node' % cls)
+    if any(v != 'ok' for _, v, _ in sem):
+        return
     _ns, _np = R.shape_stats(repo)
     res.extra['e1_shapes_interpreted'] = _ns
     res.extra['e1_shape_paths_interpreted'] = _np
